@@ -504,6 +504,47 @@ fn run_msg(c: &MsgCase) -> Outcome {
                 return Outcome::bad("C02:message:authentic-signature-rejected", format!("{c:?} signer {i}"));
             }
         }
+        // substituting another key: verify_nested over every ordered selection of candidate keys
+        // (the signers and two strangers) reports a key as valid exactly when it made a signature
+        // of the message, wherever it stands in the list
+        let strangers = [common::cert(c.key, 2), common::cert(second, 2)];
+        let mut pool: Vec<(bool, &pgp::packet::PublicKey)> = certs.iter().map(|k| (true, k.primary_key.public_key())).collect();
+        pool.extend(strangers.iter().map(|k| (false, k.primary_key.public_key())));
+        let mut lists: Vec<Vec<usize>> = vec![vec![]];
+        for len in 1..=pool.len().min(3) {
+            let mut next = Vec::new();
+            for l in lists.iter().filter(|l| l.len() == len - 1) {
+                for i in 0..pool.len() {
+                    if !l.contains(&i) {
+                        let mut l2 = l.clone();
+                        l2.push(i);
+                        next.push(l2);
+                    }
+                }
+            }
+            lists.extend(next);
+        }
+        for l in lists.iter().filter(|l| !l.is_empty()) {
+            let keys: Vec<&dyn pgp::types::VerifyingKey> = l.iter().map(|i| pool[*i].1 as &dyn pgp::types::VerifyingKey).collect();
+            evals += 1;
+            match m.verify_nested(&keys) {
+                Ok(res) => {
+                    for (pos, (i, r)) in l.iter().zip(res.iter()).enumerate() {
+                        let valid = matches!(r, pgp::composed::VerificationResult::Valid(_));
+                        if valid != pool[*i].0 {
+                            o.push(
+                                if valid { "C02:message:verify_nested-credits-a-key-that-did-not-sign" } else { "C02:message:verify_nested-misses-a-signer" },
+                                format!("{c:?}: candidate list {l:?} (indices < {} are the signers), position {pos}: reported {}", certs.len(), if valid { "Valid" } else { "Invalid" }),
+                            );
+                        }
+                    }
+                    if res.len() != l.len() {
+                        o.push("C02:message:verify_nested-result-count", format!("{c:?}: {} results for {} keys", res.len(), l.len()));
+                    }
+                }
+                Err(e) => o.push("C02:message:verify_nested-error", format!("{c:?}: {e}")),
+            }
+        }
     }
     for pos in 0..bytes.len() {
         for bit in 0..8 {
@@ -807,7 +848,7 @@ pub fn check(ctx: &Ctx) {
     ctx.run_space(
         "signed_messages",
         true,
-        "one-pass signed messages (1 and 2 signers) and prefixed-signature messages, binary and text, v4 and v6: EVERY single-bit flip of the whole message (one-pass headers, literal packet incl. its header, signature packets), every truncation, and CR / LF substituted or inserted and an octet deleted at every position of the literal data (texts mixing lone CR, CR LF and LF included); when Message::from_bytes + read_to_end + verify accept for a signer, the data read must be the signed payload (modulo text canonicalisation), the verifying signature packet's protected fields and the hashing-relevant one-pass fields (version, type, hash, salt) must be authentic",
+        "one-pass signed messages (1 and 2 signers) and prefixed-signature messages, binary and text, v4 and v6: EVERY single-bit flip of the whole message (one-pass headers, literal packet incl. its header, signature packets), every truncation, and CR / LF substituted or inserted and an octet deleted at every position of the literal data (texts mixing lone CR, CR LF and LF included); verify_nested over every ordered selection of up to 3 candidate keys out of {the signers, two other keys} credits exactly the signers; when Message::from_bytes + read_to_end + verify accept for a signer, the data read must be the signed payload (modulo text canonicalisation), the verifying signature packet's protected fields and the hashing-relevant one-pass fields (version, type, hash, salt) must be authentic",
         mc.into_par_iter(),
         run_msg,
     );
@@ -835,11 +876,90 @@ pub fn check(ctx: &Ctx) {
         crate::props::c16::tamper_cases(quick).into_par_iter(),
         run_cleartext,
     );
+    let mut xc = Vec::new();
+    for (lines, eol, fin, cfg) in [(vec![1u8], 0u8, 0u8, 0u8), (vec![1, 2, 6], 0, 1, 0), (vec![], 0, 0, 0), (vec![10, 7], 0, 1, 3)] {
+        let base = crate::props::c16::TextCase { lines, eol, fin, cfg };
+        for ws in 0..4u8 {
+            for count in (0..=70usize).chain([127, 128, 129, 200, 511, 512, 513, 8191, 8192, 8193]) {
+                for tail in 0..5u8 {
+                    xc.push(ExtCase { base: base.clone(), ws, count, tail });
+                }
+            }
+        }
+    }
+    ctx.run_space(
+        "cleartext_documents_extended",
+        true,
+        "armored cleartext-signed documents (4 base texts, v4 / v6) followed by 0..70, 127..129, 200, 511..513, 8191..8193 octets of padding (LF, blank, CR LF, TAB) and then appended data (a letter, a line, the whole document again, a signature block header, a second signature block): from_armor / from_string / Any::from_string must not hand back a document that verifies (extending the message makes verification fail)",
+        xc.into_par_iter(),
+        run_cleartext_ext,
+    );
     ctx.assume("cryptographic malleability that is not a single-bit deviation (e.g. ECDSA (r, n-s)) is not enumerated");
 }
 
 /// Cleartext-signed documents: the single deviations of C16's adversary, judged by C02's rule
 /// (a document whose signed form changed must not verify).
+/// A cleartext document with something appended behind its signature block.
+#[derive(Clone, Debug, Hash, Serialize, Deserialize)]
+pub struct ExtCase {
+    pub base: crate::props::c16::TextCase,
+    /// padding between the document and the appended data: 0 LF, 1 blank, 2 CR LF, 3 TAB
+    pub ws: u8,
+    pub count: usize,
+    /// 0 "x", 1 a line of text, 2 the whole document once more, 3 a signature block header,
+    /// 4 a second signature block (the same one)
+    pub tail: u8,
+}
+
+fn run_cleartext_ext(c: &ExtCase) -> Outcome {
+    use pgp::composed::CleartextSignedMessage;
+    let text = crate::props::c16::build_text(&c.base);
+    let ks = crate::props::c16::keys(c.base.cfg);
+    let Ok(msg) = crate::props::c16::sign_text(&c.base, &text) else {
+        return Outcome::trivial("base-sign-error");
+    };
+    let Ok(doc) = msg.to_armored_bytes(None.into()) else {
+        return Outcome::trivial("base-write-error");
+    };
+    let pad: &[u8] = [&b"\n"[..], b" ", b"\r\n", b"\t"][c.ws as usize % 4];
+    let sig_block = {
+        let marker = b"-----BEGIN PGP SIGNATURE-----";
+        let p = doc.windows(marker.len()).rposition(|w| w == marker).unwrap_or(0);
+        doc[p..].to_vec()
+    };
+    let tail: Vec<u8> = match c.tail {
+        0 => b"x".to_vec(),
+        1 => b"appended line\n".to_vec(),
+        2 => doc.clone(),
+        3 => b"-----BEGIN PGP SIGNATURE-----\n".to_vec(),
+        _ => sig_block,
+    };
+    let mut d = doc.clone();
+    for _ in 0..c.count {
+        d.extend_from_slice(pad);
+    }
+    d.extend_from_slice(&tail);
+    let what = format!("document for text \"{}\" followed by {} x {:?} and {} octets of appended data (kind {})", crate::common::esc(text.as_bytes()), c.count, String::from_utf8_lossy(pad), tail.len(), c.tail);
+    let mut o = Outcome::ok("extended-document-rejected");
+    let check = |name: &str, m: Option<CleartextSignedMessage>, o: &mut Outcome| {
+        if let Some(m) = m {
+            if ks.iter().any(|k| m.verify(&k.primary_key.public_key()).is_ok()) {
+                o.push(format!("C02:cleartext:extended-document-verifies:{name}"), what.clone());
+            }
+        }
+    };
+    check("from_armor", CleartextSignedMessage::from_armor(&d[..]).ok().map(|x| x.0), &mut o);
+    if let Ok(s) = std::str::from_utf8(&d) {
+        check("from_string", CleartextSignedMessage::from_string(s).ok().map(|x| x.0), &mut o);
+        let any = pgp::composed::Any::from_string(s).ok().and_then(|(a, _)| match a {
+            pgp::composed::Any::Cleartext(m) => Some(m),
+            _ => None,
+        });
+        check("Any::from_string", any, &mut o);
+    }
+    o
+}
+
 fn run_cleartext(c: &crate::props::c16::MutCase) -> Outcome {
     let mut o = crate::props::c16::run_mut(c);
     for v in &mut o.viol {
@@ -851,6 +971,9 @@ fn run_cleartext(c: &crate::props::c16::MutCase) -> Outcome {
 pub fn replay(space: &str, case: &Value) -> Option<Outcome> {
     if space == "cleartext_documents" {
         return replay_as(case, run_cleartext);
+    }
+    if space == "cleartext_documents_extended" {
+        return replay_as(case, run_cleartext_ext);
     }
     match space {
         "signature_artefacts" => replay_as(case, run_art),
